@@ -28,6 +28,8 @@ SPECS = {
     "spec_C03_selection": "(spec_C03_selection_code c wm h)",
     "spec_C18_registered": "(if spec_C18_registered c wm h then 0%Z else 2%Z)",
     "spec_C18_introspection": "(if spec_C18_introspection h then 0%Z else 2%Z)",
+    # the hypothesis of the frame theorem for class statements, on the model's final world
+    "own_lists_everywhere": "(if own_lists_everywhere wm then 0%Z else 2%Z)",
 }
 
 
